@@ -465,7 +465,9 @@ class Run:
                 key = u.get('unsupported', '')[:200]
                 if key in seen: continue
                 seen.add(key)
-                print('INCONCLUSIVE: %s' % json.dumps(u)[:1200])
+                txt = json.dumps(u)
+                # for an internal error the end of the traceback says what happened
+                print('INCONCLUSIVE: %s' % (txt[:1200] if 'internal error' not in txt else txt[:60] + ' ... ' + txt[-900:]))
                 if len(seen) > 8: break
         if self.violations:
             code = EXIT_VIOLATION
